@@ -101,6 +101,18 @@ func VerifC15FailuresV1() {
 		nd.Reach("batch-under-internal-failure")
 		nd.Assert(err == nil, "C15v1-batch-under-internal-failure-reports-unprocessed")
 		nd.Assert(len(unprocessed[vTbl]) == len(reqs), "C15v1-batch-every-request-unprocessed")
+		if len(unprocessed[vTbl]) == len(reqs) {
+			puts, dels := 0, 0
+			for _, u := range unprocessed[vTbl] {
+				if u.PutRequest != nil && u.DeleteRequest == nil && len(u.PutRequest.Item) == 2 {
+					puts++
+				}
+				if u.DeleteRequest != nil && u.PutRequest == nil && len(u.DeleteRequest.Key) == 1 {
+					dels++
+				}
+			}
+			nd.Assert(puts == 1 && dels == 1, "C15v1-batch-unprocessed-requests-are-the-originals")
+		}
 	} else {
 		nd.Assert(vIsConfigured(err, internal), "C15v1-data-call-returns-configured-error")
 	}
